@@ -198,10 +198,15 @@ def run(chk, repo):
     for dname in ("lowpass", "highpass"):
         fnz = repo.strategy(LF, dname, "z").node
         Wz = WF("%s[z]" % dname)
+        loc = {}
+        for a_ in ast.walk(fnz):
+            if isinstance(a_, ast.Assign) and len(a_.targets) == 1 and isinstance(a_.targets[0], ast.Name):
+                loc.setdefault(a_.targets[0].id, []).append(unparse(a_.value))
+        is_cos = lambda e: "cos" in unparse(e) or (isinstance(e, ast.Name) and any("cos(" in v_ for v_ in loc.get(e.id, [])))
         gens = [n for n in ast.walk(fnz) if isinstance(n, (ast.GeneratorExp, ast.ListComp)) and len(n.generators) == 1
-                and "cos" in unparse(n.generators[0].iter)]
+                and is_cos(n.generators[0].iter)]
         maps = [n for n in ast.walk(fnz) if isinstance(n, ast.Call) and unparse(n.func) in ("xmap", "map", "it.imap")
-                and len(n.args) == 2 and isinstance(n.args[0], ast.Lambda) and "cos" in unparse(n.args[1])]
+                and len(n.args) == 2 and isinstance(n.args[0], ast.Lambda) and is_cos(n.args[1])]
         for g in gens + maps:
             nz += 1
             if isinstance(g, ast.Call):
@@ -245,6 +250,28 @@ def run(chk, repo):
             chk.decide(R is not None and R == wantR, "C13.resonator", W, "R = %s" % (R.key() if R is not None else "?"),
                        why="pole radius must be exp(-bandwidth/2)", node=rst)
             den = env.get("denominator")
+            if den is None and isinstance(rst.value, ast.BinOp) and isinstance(rst.value.op, ast.Div):
+                # denominator written in line in the returned quotient
+                try:
+                    cand = DesignEval(env).ev(rst.value.right)
+                    cpc = cand.coeff_poly("x")
+                    if set(cpc) == {0, 1, 2} and cpc[0] == 1:
+                        den = cand
+                        env = dict(env, denominator=den)
+                except Inconclusive:
+                    pass
+            if den is None and env.get("gain") is not None:
+                # denominator written in line: recover it from H = gain * N(z) / D(z), N = 1 or 1 - z^-2
+                for N_ in (RF.const(1), 1 - RF.sym("x") ** 2):
+                    try:
+                        cand = env["gain"] * N_ / val
+                        cpc = cand.coeff_poly("x")
+                    except (Inconclusive, ZeroDivisionError):
+                        continue
+                    if set(cpc) == {0, 1, 2} and cpc[0] == 1:
+                        den = cand
+                        env = dict(env, denominator=den)
+                        break
             okd = False
             if den is not None:
                 cp = den.coeff_poly("x")
@@ -349,14 +376,39 @@ def run(chk, repo):
             chk.decide(unparse(r) == "return CascadeFilter([f0] + [fn] * (eta - 1))" and len(norms) == 2, "C13.gammatone", W,
                        short(r), why="cascade of the normalised first section and eta-1 normalised pole sections", node=r)
         else:
-            chk.decide(unparse(r) == "return CascadeFilter((f / abs(f.freq_response(freq)) for f in filt))", "C13.gammatone", W,
-                       short(r), why="every section of the cascade normalised", node=r)
+            okr = unparse(r) in ("return CascadeFilter((f / abs(f.freq_response(freq)) for f in filt))",
+                                 "return CascadeFilter([f / abs(f.freq_response(freq)) for f in filt])")
+            if not okr and isinstance(r, ast.Return) and isinstance(r.value, ast.Name):
+                # cascade = CascadeFilter() ; for f in sections: cascade.append(f / abs(f.freq_response(freq)))
+                nm_ = r.value.id
+                inits_ = [s_ for s_ in docstring_free(fn.body) if isinstance(s_, ast.Assign) and unparse(s_.targets[0]) == nm_]
+                apps_ = [n_ for n_ in ast.walk(fn) if isinstance(n_, ast.Call) and unparse(n_.func) == "%s.append" % nm_]
+                okr = len(inits_) == 1 and unparse(inits_[0].value) in ("CascadeFilter()", "CascadeFilter([])") and len(apps_) == 1
+                if okr:
+                    a_ = apps_[0].args[0]
+                    loop_ = apps_[0]
+                    while loop_ is not None and not isinstance(loop_, ast.For):
+                        loop_ = getattr(loop_, "_parent", None)
+                    v_ = unparse(loop_.target) if loop_ is not None else "?"
+                    okr = unparse(a_) == "%s / abs(%s.freq_response(freq))" % (v_, v_)
+            chk.decide(okr, "C13.gammatone", W, short(r), why="every section of the cascade normalised", node=r)
     kl = repo.strategy(LAu, "gammatone", "klapuri").node
     W = WA("gammatone[klapuri]")
     kb = {unparse(s.targets[0]): unparse(s.value) for s in docstring_free(kl.body) if isinstance(s, ast.Assign)}
     r = docstring_free(kl.body)[-1]
-    ok = kb.get("resons") == "[resonator.z_exp, resonator.poles_exp] * 2" and kb.get("bw") == "thub(bandwidth, 1)" \
-        and kb.get("bw2") == "thub(bw * 2, 4)" and kb.get("freq") == "thub(freq, 4)" \
-        and unparse(r) == "return CascadeFilter((reson(freq, bw2) for reson in resons))"
+    rs_node = [s_.value for s_ in docstring_free(kl.body) if isinstance(s_, ast.Assign) and unparse(s_.targets[0]) == "resons"]
+    rlist = None
+    if rs_node:
+        v_ = rs_node[0]
+        if isinstance(v_, ast.BinOp) and isinstance(v_.op, ast.Mult) and isinstance(v_.left, ast.List) \
+                and isinstance(v_.right, ast.Constant) and type(v_.right.value) is int:
+            rlist = [unparse(e_) for e_ in v_.left.elts] * v_.right.value
+        elif isinstance(v_, (ast.List, ast.Tuple)):
+            rlist = [unparse(e_) for e_ in v_.elts]
+    rtxt = unparse(r)
+    ok = rlist == ["resonator.z_exp", "resonator.poles_exp"] * 2 and kb.get("bw") == "thub(bandwidth, 1)" \
+        and kb.get("bw2") in ("thub(bw * 2, 4)", "thub(2 * bw, 4)") and kb.get("freq") == "thub(freq, 4)" \
+        and rtxt in ("return CascadeFilter((reson(freq, bw2) for reson in resons))",
+                     "return CascadeFilter([reson(freq, bw2) for reson in resons])")
     chk.decide(ok, "C13.gammatone", W, "%s ; %s" % (kb.get("resons"), short(r)),
                why="four resonators (z_exp, poles_exp twice) at freq with bandwidth 2*bandwidth", node=kl)
